@@ -1,7 +1,8 @@
 import Ypv.Props.C12
 #print axioms Ypv.C12.matches_eq_spec
 #print axioms Ypv.C12.matches_total
-#print axioms Ypv.C12.matches_crash_only_invalid_regex
+#print axioms Ypv.C12.matches_never_crashes
+#print axioms Ypv.C12.matches_error_only_invalid_regex
 #print axioms Ypv.C12.plain_is_filter
 #print axioms Ypv.C12.inverted_is_complement
 #print axioms Ypv.C12.positions_partition
